@@ -125,8 +125,12 @@ func checkpath(file string) string {
 	privfile := file
 	if IsAnyBitsSet(Lprivacypath) {
 		for k, v := range knownPathMap {
-			if strings.HasPrefix(privfile, k) {
-				privfile = strings.ReplaceAll(privfile, k, v)
+			// k must be a directory prefix of the path (not a prefix of a
+			// sibling's name like $HOMEkit), and only that prefix is replaced.
+			if k != "" && strings.HasPrefix(privfile, k) &&
+				(len(privfile) == len(k) || privfile[len(k)] == '/' || privfile[len(k)] == filepath.Separator ||
+					k[len(k)-1] == '/' || k[len(k)-1] == filepath.Separator) {
+				privfile = v + privfile[len(k):]
 			}
 		}
 
